@@ -10,7 +10,9 @@ def c(label, godebug=None, tags=("verif",), wrap="native", env=None):
 PUREGO = ("verif", "purego")
 
 K_SM3 = [c("avx2"), c("avx(no avx2)", "cpu.avx2=off"), c("ssse3(no avx)", "cpu.avx2=off,cpu.avx=off"),
-         c("scalar-asm", "cpu.avx2=off,cpu.avx=off,cpu.ssse3=off"), c("purego", tags=PUREGO)]
+         c("scalar-asm", "cpu.avx2=off,cpu.avx=off,cpu.ssse3=off"), c("purego", tags=PUREGO),
+         # every switch the dispatch reads, off alone (combinations no CPU has, but GODEBUG selects them and two sites may disagree)
+         c("bmi2-off-alone", "cpu.bmi2=off"), c("avx-off-alone", "cpu.avx=off"), c("ssse3-off-alone", "cpu.ssse3=off")]
 
 def k_sm4(wrappers=("native",), full=True):
     base = [c("aesni+avx2"), c("aesni+avx", "cpu.avx2=off"), c("aesni+sse", "cpu.avx2=off,cpu.avx=off"),
